@@ -149,6 +149,12 @@ func comparePrereleaseIdentifiers(a, b string) int {
 
 // tryParseInt attempts to parse a string as an integer
 func tryParseInt(s string) (int, bool) {
+	// Only digits make a numeric identifier: "-5" is alphanumeric
+	for _, r := range s {
+		if r < '0' || r > '9' {
+			return 0, false
+		}
+	}
 	num, err := strconv.Atoi(s)
 	return num, err == nil
 }
